@@ -103,7 +103,11 @@ fn cmd_hist(a: &Args) -> Ev {
         match prop.as_str() {
             "C13" | "C14" => g.bias_mut = true,
             "C11" | "C12" => g.bias_view = true,
-            "C10" => g.bias_bulk = true,
+            "C10" => {
+                g.bias_bulk = true;
+                // retain with a panicking predicate: exactly the rejected entries are gone
+                g.allow_inject = hi % 2 == 1;
+            }
             "C16" => {
                 g.bias_bulk = true;
                 // a panicking callback must not lose or duplicate slots either
